@@ -1,0 +1,43 @@
+//go:build verif
+
+// Contracts for cast emission (read as text by /verif's govc; comment-only). The required
+// conversion per (source, target) pair is taken from arc/docs/spec.md, "Type Casting":
+//   widening is safe (sign/zero extend); narrowing truncates; signed <-> unsigned saturates at
+//   bounds; float -> integer truncates toward zero and saturates on overflow.
+
+package expression
+
+//@ ignorepkg github.com/synnaxlabs/arc/compiler/resolve
+
+//@ spec func SpecSignedInt(k types.Kind) bool = k == types.KindI8 || k == types.KindI16 || k == types.KindI32 || k == types.KindI64
+//@ spec func SpecInt(k types.Kind) bool = wasm.SpecNumeric(k) && !wasm.SpecFloat(k)
+//@ spec func SpecBits(k types.Kind) int = __ite(k == types.KindU8 || k == types.KindI8, 8, __ite(k == types.KindU16 || k == types.KindI16, 16, __ite(k == types.KindU64 || k == types.KindI64 || k == types.KindF64, 64, 32)))
+//@ spec func SpecTrappingTrunc(op wasm.Opcode) bool = op == wasm.OpI32TruncF32S || op == wasm.OpI32TruncF32U || op == wasm.OpI32TruncF64S || op == wasm.OpI32TruncF64U || op == wasm.OpI64TruncF32S || op == wasm.OpI64TruncF32U || op == wasm.OpI64TruncF64S || op == wasm.OpI64TruncF64U
+
+//@ func EmitCast[ASTNode antlr.ParserRuleContext](ctx context.Context[ASTNode], from types.Type, to types.Type) (err error)
+//@   tparams ASTNode antlr.ParserRuleContext
+//@   requires ctx.Writer != nil && wasm.SpecNumeric(from.Kind) && wasm.SpecNumeric(to.Kind)
+//@   ensures err == nil
+//@   # no conversion between identical kinds
+//@   ensures from.Kind == to.Kind ==> wasm.SpecEmitted[ctx.Writer] == old(wasm.SpecEmitted[ctx.Writer])
+//@   # widening an integer into a 64-bit register extends by the SOURCE's signedness
+//@   ensures SpecInt(from.Kind) && SpecBits(from.Kind) <= 32 && SpecInt(to.Kind) && SpecBits(to.Kind) == 64 ==> wasm.SpecEmitted[ctx.Writer] == old(wasm.SpecEmitted[ctx.Writer]) + 1 && wasm.SpecLastOp[ctx.Writer] == __ite(SpecSignedInt(from.Kind), wasm.OpI64ExtendI32S, wasm.OpI64ExtendI32U)
+//@   # narrowing from a 64-bit integer wraps to 32 bits first
+//@   ensures SpecInt(from.Kind) && SpecBits(from.Kind) == 64 && SpecInt(to.Kind) && SpecBits(to.Kind) == 32 ==> wasm.SpecEmitted[ctx.Writer] == old(wasm.SpecEmitted[ctx.Writer]) + 1 && wasm.SpecLastOp[ctx.Writer] == wasm.OpI32WrapI64
+//@   # integer to float converts by the SOURCE's signedness, from the source's register
+//@   ensures SpecInt(from.Kind) && wasm.SpecFloat(to.Kind) ==> wasm.SpecEmitted[ctx.Writer] == old(wasm.SpecEmitted[ctx.Writer]) + 1 && wasm.SpecLastOp[ctx.Writer] == __ite(SpecBits(from.Kind) == 64, __ite(to.Kind == types.KindF32, __ite(SpecSignedInt(from.Kind), wasm.OpF32ConvertI64S, wasm.OpF32ConvertI64U), __ite(SpecSignedInt(from.Kind), wasm.OpF64ConvertI64S, wasm.OpF64ConvertI64U)), __ite(to.Kind == types.KindF32, __ite(SpecSignedInt(from.Kind), wasm.OpF32ConvertI32S, wasm.OpF32ConvertI32U), __ite(SpecSignedInt(from.Kind), wasm.OpF64ConvertI32S, wasm.OpF64ConvertI32U)))
+//@   # float to float
+//@   ensures from.Kind == types.KindF32 && to.Kind == types.KindF64 ==> wasm.SpecEmitted[ctx.Writer] == old(wasm.SpecEmitted[ctx.Writer]) + 1 && wasm.SpecLastOp[ctx.Writer] == wasm.OpF64PromoteF32
+//@   ensures from.Kind == types.KindF64 && to.Kind == types.KindF32 ==> wasm.SpecEmitted[ctx.Writer] == old(wasm.SpecEmitted[ctx.Writer]) + 1 && wasm.SpecLastOp[ctx.Writer] == wasm.OpF32DemoteF64
+//@   # float to integer: one truncation from the source's float width into the target's register,
+//@   # signed by the TARGET (of the truncation opcodes the package defines; see the known finding below)
+//@   ensures wasm.SpecFloat(from.Kind) && SpecInt(to.Kind) ==> wasm.SpecEmitted[ctx.Writer] == old(wasm.SpecEmitted[ctx.Writer]) + 1 && wasm.SpecLastOp[ctx.Writer] == __ite(from.Kind == types.KindF32, __ite(SpecBits(to.Kind) == 64, __ite(SpecSignedInt(to.Kind), wasm.OpI64TruncF32S, wasm.OpI64TruncF32U), __ite(SpecSignedInt(to.Kind), wasm.OpI32TruncF32S, wasm.OpI32TruncF32U)), __ite(SpecBits(to.Kind) == 64, __ite(SpecSignedInt(to.Kind), wasm.OpI64TruncF64S, wasm.OpI64TruncF64U), __ite(SpecSignedInt(to.Kind), wasm.OpI32TruncF64S, wasm.OpI32TruncF64U)))
+//@   # ---- the three clauses below state what the specification requires and FAIL on the pinned
+//@   # compiler (known findings, /verif/findings/c19_spec_deviation_test.go):
+//@   # "Float -> Integer truncates toward zero, saturates on overflow": a trapping truncation is not saturating
+//@   ensures wasm.SpecFloat(from.Kind) && SpecInt(to.Kind) ==> !SpecTrappingTrunc(wasm.SpecLastOp[ctx.Writer])
+//@   # "Signed <-> Unsigned saturates at bounds": same register, different signedness needs a clamp
+//@   ensures SpecInt(from.Kind) && SpecInt(to.Kind) && SpecSignedInt(from.Kind) != SpecSignedInt(to.Kind) && SpecBits(from.Kind) == SpecBits(to.Kind) ==> wasm.SpecEmitted[ctx.Writer] > old(wasm.SpecEmitted[ctx.Writer])
+//@   # "Narrowing truncates": a target narrower than its register needs more than the register change
+//@   ensures SpecInt(from.Kind) && SpecInt(to.Kind) && SpecBits(to.Kind) < 32 && SpecBits(to.Kind) < SpecBits(from.Kind) ==> wasm.SpecEmitted[ctx.Writer] > old(wasm.SpecEmitted[ctx.Writer]) + __ite(SpecBits(from.Kind) == 64, 1, 0)
+//@   modifies wasm.SpecEmitted, wasm.SpecLastOp
